@@ -5,7 +5,8 @@
 //!
 //! * labels: all octet strings of length <= 2 (thorough: <= 3) over the 14
 //!   octets {00 SP - . @ A Z [ _ ` a z { FF} plus 12 labels of length 62/63;
-//! * character strings: the same strings plus 3 of length 254/255, in three
+//! * character strings: the same strings plus 3 of length 254/255 and 16 of
+//!   length 31/32/33/64 (case variants), in three
 //!   representations (Vec, &[u8], unsized);
 //! * names: all sequences of <= 3 (thorough: <= 4) labels over {a, A, b,
 //!   "a.b" as ONE label, ab} and all sequences of <= 2 (thorough: <= 3) labels
@@ -18,6 +19,12 @@
 //!   name-case twin, its all-letters-case twin and its `Unknown`-variant twin
 //!   (what the zone-file reader produces for the RFC 3597 `\#` syntax), as
 //!   `AllRecordData` and `ZoneRecordData`, flat and parsed;
+//! * embedded names: every embedded name of every compact value replaced by
+//!   b., B., a.b., a.B. and the root, all pairs and triples within each group;
+//! * numeric fields: every window of 1/2/4/6 octets (outside embedded names)
+//!   of every compact value overwritten with the boundary values 0, 1,
+//!   2^(n-1)-1, 2^(n-1), 2^(n-1)+1, 2^n-1 of that width, all pairs and triples
+//!   within each (value, width, offset) group;
 //! * records: RDATA x 3 owners (a., A., b.a.) x 2 classes x 2 TTLs, flat and
 //!   parsed from a message;
 //! * per record type all ordered pairs of the rgen *quick* menu product
@@ -616,6 +623,16 @@ fn charstr_items(quick: bool) -> Vec<Vec<u8>> {
     v.push(vec![b'a'; 255]);
     v.push(vec![b'A'; 255]);
     v.push(vec![b'a'; 254]);
+    // around multiples of 32 (block-wise implementations): all lower, all
+    // upper, upper case only in the first or only in the last octet
+    for l in [31usize, 32, 33, 64] {
+        v.push(vec![b'a'; l]);
+        v.push(vec![b'A'; l]);
+        let mut first = vec![b'a'; l];
+        first[0] = b'A';
+        v.push(first);
+        v.push(with_last(b'a', l, b'A'));
+    }
     v
 }
 
@@ -1938,6 +1955,212 @@ fn dom_wide(env: &Env, only_type: Option<(&str, Vec<u64>)>, max_values: usize) {
     }
 }
 
+//------------ numeric fields: boundary values in every field window ---------------------
+
+/// Boundary values of an unsigned field of `w` octets: 0, 1, 2^(n-1)-1,
+/// 2^(n-1), 2^(n-1)+1, 2^n-1 (for 32 bits: 0, 1, 0x7FFFFFFF, 0x80000000,
+/// 0x80000001, 0xFFFFFFFF), big-endian.
+fn boundary_values(w: usize) -> Vec<Vec<u8>> {
+    let bits = 8 * w as u32;
+    let half: u64 = 1u64 << (bits - 1);
+    let max: u64 = if bits == 64 { u64::MAX } else { (1u64 << bits) - 1 };
+    [0, 1, half - 1, half, half + 1, max].iter().map(|v| v.to_be_bytes()[8 - w..].to_vec()).collect()
+}
+
+const FIELD_WIDTHS: [usize; 4] = [1, 2, 4, 6];
+
+/// Names put in place of every embedded name: the canonical name order
+/// (RFC 4034 6.1) of `b.` and `a.b.` is the opposite of the order of their
+/// wire octets, and `B.`/`a.B.` additionally differ from them in case only.
+fn substitute_names() -> Vec<Vec<Vec<u8>>> {
+    vec![vec![b"b".to_vec()], vec![b"B".to_vec()], vec![b"a".to_vec(), b"b".to_vec()], vec![b"a".to_vec(), b"B".to_vec()], vec![]]
+}
+
+/// For every compact value, every window of 1, 2, 4 or 6 octets of its
+/// RDATA outside the embedded names is overwritten with each boundary
+/// value of that width; what the library parses back to exactly these octets
+/// (and whose canonical form is the reference one, so the field layout did
+/// not shift) forms, with the base value, one group. All ordered pairs and
+/// triples within each group. This puts 0, 1, 2^31-1, 2^31, 2^31+1, 2^32-1
+/// (and the 8/16/48 bit analogues) into every numeric or time field of every
+/// type, whatever its position.
+fn dom_fields(env: &Env, only: Option<(usize, usize, usize)>) {
+    let dom = "rdata-fields";
+    let (vals, _) = rgen::values_ex(rgen::Tier::Compact);
+    let mut groups: Vec<(usize, usize, usize)> = Vec::new();
+    for (b, v) in vals.iter().enumerate() {
+        // width 0: substitution of the embedded name number `off`
+        for k in 0..v.names.len() {
+            if only.map(|x| x != (b, 0, k)).unwrap_or(true) && only.is_some() {
+                continue;
+            }
+            groups.push((b, 0, k));
+        }
+        for w in FIELD_WIDTHS {
+            if v.wire.len() < w {
+                continue;
+            }
+            for off in 0..=v.wire.len() - w {
+                if v.names.iter().any(|&(o, l)| off < o + l && o < off + w) {
+                    continue;
+                }
+                if only.map(|x| x != (b, w, off)).unwrap_or(false) {
+                    continue;
+                }
+                groups.push((b, w, off));
+            }
+        }
+    }
+    let kept = AtomicU64::new(0);
+    let dropped = AtomicU64::new(0);
+    let pairs = AtomicU64::new(0);
+    groups.par_iter().for_each(|&(b, w, off)| {
+        let v = &vals[b];
+        let t = v.mnemonic;
+        let listed = CANONICAL_LOWERCASE.contains(&v.rtype);
+        let canon_with = |wire: &[u8], names: &[(usize, usize)]| if listed { map_names(wire, names, |x| x.to_ascii_lowercase()) } else { wire.to_vec() };
+        // items: (wire, value, reference canonical form)
+        let mut items: Vec<(Vec<u8>, Rd, Vec<u8>)> = vec![(v.wire.clone(), v.data.clone(), canon_with(&v.wire, &v.names))];
+        // candidate wires with their name spans
+        let mut cands: Vec<(Vec<u8>, Vec<(usize, usize)>)> = Vec::new();
+        if w == 0 {
+            let (o, l) = v.names[off];
+            for nm in substitute_names() {
+                let nw = name_wire(&nm);
+                let mut wire = v.wire[..o].to_vec();
+                wire.extend_from_slice(&nw);
+                wire.extend_from_slice(&v.wire[o + l..]);
+                let spans = v.names.iter().map(|&(so, sl)| if so == o { (so, nw.len()) } else if so > o { (so + nw.len() - l, sl) } else { (so, sl) }).collect();
+                cands.push((wire, spans));
+            }
+        } else {
+            for bv in boundary_values(w) {
+                let mut wire = v.wire.clone();
+                wire[off..off + w].copy_from_slice(&bv);
+                cands.push((wire, v.names.clone()));
+            }
+        }
+        for (wire, spans) in cands {
+            if items.iter().any(|x| x.0 == wire) {
+                continue;
+            }
+            let ok = parse_flat(v.rtype, &wire).and_then(|d| {
+                let c = canon_with(&wire, &spans);
+                if compose_plain(&d).as_deref() == Some(&wire[..]) && compose_canon(&d).ok().as_deref() == Some(&c[..]) {
+                    Some((d, c))
+                } else {
+                    None
+                }
+            });
+            match ok {
+                Some((d, c)) => {
+                    kept.fetch_add(1, AO::Relaxed);
+                    items.push((wire, d, c));
+                }
+                None => {
+                    dropped.fetch_add(1, AO::Relaxed);
+                }
+            }
+        }
+        let n = items.len();
+        if n < 2 {
+            return;
+        }
+        let desc = |i: usize| json!({"type": t, "rtype": v.rtype, "base": v.desc, "window": {"offset": off, "width": w}, "rdata": hex(&items[i].0)});
+        let case2 = |i: usize, j: usize| json!({"domain": dom, "group": {"base": b, "width": w, "offset": off}, "items": [desc(i), desc(j)]});
+        let hashes: Vec<Option<Hs>> = items.iter().map(|x| guard(|| hrec(&x.1)).ok()).collect();
+        let mut eqm = vec![false; n * n];
+        let mut cm = vec![0i8; n * n];
+        let mut ccm = vec![0i8; n * n];
+        for i in 0..n {
+            for j in 0..n {
+                let (x, y) = (&items[i].1, &items[j].1);
+                let r = guard(|| (x == y, sgn(x.cmp(y)), x.partial_cmp(y).map(sgn), sgn(x.canonical_cmp(y))));
+                env.stats.eval();
+                if i != j {
+                    env.stats.distinct(mix(11, (b * 4096 + off) * 8 + w, i * 8 + j));
+                }
+                let (eq, c, pc, can) = match r {
+                    Ok(o) => o,
+                    Err(e) => {
+                        env.viol(format!("C04|rdata|panic|{}", panic_class(&e)), e, case2(i, j));
+                        continue;
+                    }
+                };
+                env.say(|| format!("{} ? {}: eq {eq} cmp {} partial_cmp {:?} canonical_cmp {}", hex(&items[i].0), hex(&items[j].0), ord_s(c), pc.map(ord_s), ord_s(can)));
+                eqm[i * n + j] = eq;
+                cm[i * n + j] = c;
+                ccm[i * n + j] = can;
+                if pc != Some(c) {
+                    env.viol(format!("C04|rdata|partial_cmp-vs-cmp|{t}"), format!("partial_cmp = {:?}, cmp = {} for {} vs {}", pc.map(ord_s), ord_s(c), hex(&items[i].0), hex(&items[j].0)), case2(i, j));
+                }
+                if eq != (c == 0) {
+                    let k = if eq { format!("eq-but-cmp-{}", ord_s(c)) } else { "cmp-equal-but-ne".into() };
+                    env.viol(format!("C04|rdata|eq-iff-cmp-equal|{k}|{t}"), format!("a == b is {eq}, cmp is {}", ord_s(c)), case2(i, j));
+                }
+                if eq != (items[i].0 == items[j].0) {
+                    // same type, same names: equal iff the RDATA octets are equal
+                    env.stats.count(&format!("{dom}:eq-differs-from-octet-equality:{t}"));
+                }
+                if eq {
+                    if let (Some(h1), Some(h2)) = (&hashes[i], &hashes[j]) {
+                        if h1.stream != h2.stream {
+                            env.viol(format!("C04|rdata|eq-implies-hash|hash-input-differs|{t}"), format!("{} vs {}", hex(&h1.stream), hex(&h2.stream)), case2(i, j));
+                        }
+                    }
+                }
+                let want = sgn(items[i].2.cmp(&items[j].2));
+                if can != want {
+                    env.viol(
+                        format!("C04|rdata|canonical_cmp-vs-rfc4034-canonical-octets|{t}"),
+                        format!("canonical_cmp = {}, octet order of the canonical forms {} / {} is {}", ord_s(can), hex(&items[i].2), hex(&items[j].2), ord_s(want)),
+                        case2(i, j),
+                    );
+                }
+            }
+        }
+        pairs.fetch_add((n * n) as u64, AO::Relaxed);
+        // laws on the observed relations: symmetry, antisymmetry, total preorder (rank test), triples
+        for (on, m) in [("cmp", &cm), ("canonical_cmp", &ccm)] {
+            let rank: Vec<usize> = (0..n).map(|i| (0..n).filter(|&j| m[i * n + j] > 0).count()).collect();
+            for i in 0..n {
+                for j in 0..n {
+                    if on == "cmp" && eqm[i * n + j] != eqm[j * n + i] {
+                        env.viol(format!("C04|rdata|eq-not-symmetric|{t}"), "a == b differs from b == a".into(), case2(i, j));
+                    }
+                    if m[i * n + j] != -m[j * n + i] {
+                        env.viol(format!("C04|rdata|{on}-not-antisymmetric|{t}"), format!("{} vs {}", ord_s(m[i * n + j]), ord_s(m[j * n + i])), case2(i, j));
+                    } else if m[i * n + j] != (rank[i] as i64 - rank[j] as i64).signum() as i8 {
+                        env.viol(
+                            format!("C04|rdata|{on}-not-a-total-preorder|{t}"),
+                            format!("a.{on}(b) = {} but a has {} smaller values and b has {}: not transitive", ord_s(m[i * n + j]), rank[i], rank[j]),
+                            case2(i, j),
+                        );
+                    }
+                    for k in 0..n {
+                        let (a, bb, c) = (m[i * n + j], m[j * n + k], m[i * n + k]);
+                        if a <= 0 && bb <= 0 && (c > 0 || ((a < 0 || bb < 0) && c >= 0)) {
+                            env.viol(
+                                format!("C04|rdata|{on}-not-transitive|{t}"),
+                                format!("a?b = {}, b?c = {}, a?c = {}", ord_s(a), ord_s(bb), ord_s(c)),
+                                json!({"domain": dom, "group": {"base": b, "width": w, "offset": off}, "items": [desc(i), desc(j), desc(k)]}),
+                            );
+                        }
+                    }
+                }
+            }
+            env.triples.fetch_add((n * n * n) as u64, AO::Relaxed);
+        }
+    });
+    env.stats.count_n(&format!("{dom}:groups(value,width,offset)"), groups.len() as u64);
+    env.stats.count_n(&format!("{dom}:variants-kept"), kept.load(AO::Relaxed));
+    env.stats.count_n(&format!("{dom}:variants-dropped(not-parseable-or-layout-shifted)"), dropped.load(AO::Relaxed));
+    env.stats.count_n(&format!("{dom}:ordered-pairs"), pairs.load(AO::Relaxed));
+    if let Some(&(b, w, off)) = groups.iter().find(|g| vals[g.0].mnemonic == "RRSIG" && g.1 == 4 && g.2 == 8) {
+        env.stats.sample(48, || json!({"domain": dom, "group": {"type": "RRSIG", "base": vals[b].desc, "width": w, "offset": off}, "values_in_window": boundary_values(w).iter().map(|x| hex(x)).collect::<Vec<_>>()}));
+    }
+}
+
 //------------ main ----------------------------------------------------------------------
 
 fn main() {
@@ -1979,6 +2202,10 @@ fn main() {
             "rdata" => dom_rdata(&env, Some(&idx), false),
             "zrdata" => dom_rdata(&env, Some(&idx), true),
             "record" => dom_records(&env, Some(&idx)),
+            "rdata-fields" => {
+                let g = &case["group"];
+                dom_fields(&env, Some((g["base"].as_u64().unwrap_or(0) as usize, g["width"].as_u64().unwrap_or(0) as usize, g["offset"].as_u64().unwrap_or(0) as usize)))
+            }
             "rdata-wide" => {
                 let c: Vec<u64> = case["candidates"].as_array().map(|a| a.iter().filter_map(|x| x.as_u64()).collect()).unwrap_or_default();
                 dom_wide(&env, Some((case["type"].as_str().unwrap_or(""), c)), usize::MAX)
@@ -2000,6 +2227,7 @@ fn main() {
         phase("rdata", &mut || dom_rdata(&env, None, false));
         phase("zrdata", &mut || dom_rdata(&env, None, true));
         phase("records", &mut || dom_records(&env, None));
+        phase("rdata-fields", &mut || dom_fields(&env, None));
         phase("rdata-wide", &mut || dom_wide(&env, None, if quick { 1000 } else { usize::MAX }));
     }
     let _ = t0;
@@ -2018,6 +2246,8 @@ fn main() {
                 "name_label_menu": ["a", "A", "b", "a.b (one label)", "ab"],
                 "name_label_menu_extended": ["a", "A", "b", "a.b (one label)", "ab", "a\\001b (one label)", "\\001a (one label)"],
                 "name_depth_extended_menu": if quick { 2 } else { 3 },
+                "embedded_names": "every embedded name of every compact value replaced by each of b., B., a.b., a.B. and the root (canonical name order opposite to wire order; case twins); all ordered pairs and triples within each (value, name) group",
+                "numeric_fields": "every window of 1/2/4/6 octets outside embedded names of every compact value overwritten with 0, 1, 2^(n-1)-1, 2^(n-1), 2^(n-1)+1, 2^n-1; all ordered pairs and triples within each (value, width, offset) group",
                 "owners": ["a.", "A.", "b.a."], "classes": [1, 3], "ttls": [1, 3600],
                 "rdata": if quick { "rgen compact values + name-case twins + letter-case twins + Unknown-variant twins; records over compact values; plus per type all ordered pairs of the rgen quick-menu product for the types with at most 1000 values" } else { "as quick, records also over the twins; rgen quick-menu product for every type (53 564 values)" },
             },
